@@ -103,7 +103,13 @@ def inline_local_aliases(fn: ast.FunctionDef, module_roots: Set[str]):
     roots = set(module_roots) | ({selfn} if selfn and cnt.get(selfn, 0) == 1 else set())
     table: Dict[str, ast.AST] = {}
     after: Dict[str, int] = {}
-    for st in fn.body:
+    def straight(stmts):
+        # statements executed in sequence with the function body: the body itself, and the bodies of try / with blocks
+        for st_ in stmts:
+            yield st_
+            if isinstance(st_, (ast.Try, ast.With)):
+                yield from straight(st_.body)
+    for st in straight(fn.body):
         if isinstance(st, ast.Assign) and len(st.targets) == 1 and isinstance(st.targets[0], ast.Name):
             name = st.targets[0].id
             if cnt.get(name, 0) == 1 and _is_alias_chain(st.value, roots) and not isinstance(st.value, ast.Name):
@@ -135,8 +141,31 @@ class _Desugar(ast.NodeTransformer):
             return ast.copy_location(ast.Attribute(value=node.args[0], attr=node.args[1].value, ctx=ast.Load()), node)
         return node
 
+    def visit_Compare(self, node):
+        # `None is None` (an omitted optional argument of an inlined helper tested against its default)
+        self.generic_visit(node)
+        if len(node.ops) == 1 and isinstance(node.left, ast.Constant) and isinstance(node.comparators[0], ast.Constant) and \
+                isinstance(node.ops[0], (ast.Is, ast.IsNot)) and (node.left.value is None or node.comparators[0].value is None):
+            same = node.left.value is node.comparators[0].value
+            return ast.copy_location(ast.Constant(value=same if isinstance(node.ops[0], ast.Is) else not same), node)
+        return node
+
+    def visit_IfExp(self, node):
+        # constant tests (left behind by the helper inliner when a flag argument is a literal)
+        self.generic_visit(node)
+        if isinstance(node.test, ast.Constant) and isinstance(node.test.value, (bool, type(None))):
+            return node.body if node.test.value else node.orelse
+        return node
+
     def _split(self, stmts):
         import copy as _copy
+        folded = []
+        for st in stmts:
+            if isinstance(st, ast.If) and isinstance(st.test, ast.Constant) and isinstance(st.test.value, (bool, type(None))):
+                folded += (st.body if st.test.value else st.orelse)
+            else:
+                folded.append(st)
+        stmts = folded or [ast.Pass()]
         # inliner temporaries:  _rK__h = (e1, e2); a, b = _rK__h   ->   a, b = (e1, e2)
         merged = []
         i = 0
@@ -185,11 +214,269 @@ class _Desugar(ast.NodeTransformer):
         return node
 
 
+def _forward_attr_stores(fn: ast.FunctionDef):
+    """`t = E; ...; self.a = t`  ->  `self.a = E; ...` with the later uses of t reading self.a: code that builds a value in
+    a local and stores it afterwards is analysed in the same shape as code that stores it directly.  Only when the local
+    is bound once, the statements in between neither mention self.a, nor call into / hand out `self`, nor leave the
+    block, and self.a is not stored again where t is still used."""
+    import copy as _copy
+    cnt = _binding_counts(fn)
+    params = {a.arg for a in fn.args.posonlyargs + fn.args.args + fn.args.kwonlyargs}
+    U = ast.unparse
+
+    def loads(nodes, name):
+        return sum(1 for st in nodes for x in ast.walk(st) if isinstance(x, ast.Name) and x.id == name and isinstance(x.ctx, ast.Load))
+
+    def do_block(block: List[ast.stmt]) -> List[ast.stmt]:
+        changed = True
+        while changed:
+            changed = False
+            for j, sj in enumerate(block):
+                if not (isinstance(sj, ast.Assign) and len(sj.targets) == 1 and isinstance(sj.targets[0], ast.Attribute)
+                        and isinstance(sj.targets[0].value, ast.Name) and isinstance(sj.value, ast.Name)):
+                    continue
+                t, base, attr_txt = sj.value.id, sj.targets[0].value.id, U(sj.targets[0])
+                if cnt.get(t, 0) != 1 or t in params or t == base:
+                    continue
+                idx = [i for i in range(j) if isinstance(block[i], ast.Assign) and len(block[i].targets) == 1
+                       and isinstance(block[i].targets[0], ast.Name) and block[i].targets[0].id == t]
+                if len(idx) != 1:
+                    continue
+                i = idx[0]
+                between = block[i + 1:j]
+                ok = True
+                for st in between:
+                    for x in ast.walk(st):
+                        if isinstance(x, (ast.Return, ast.Break, ast.Continue, ast.Raise, ast.Yield, ast.YieldFrom)):
+                            ok = False
+                        elif isinstance(x, ast.Attribute) and U(x) == attr_txt:
+                            ok = False
+                        elif isinstance(x, ast.Call):
+                            if isinstance(x.func, ast.Attribute) and isinstance(x.func.value, ast.Name) and x.func.value.id == base:
+                                ok = False
+                            if any(isinstance(a, ast.Name) and a.id == base for a in list(x.args) + [k.value for k in x.keywords]):
+                                ok = False
+                rest = block[i + 1:j] + block[j + 1:]
+                # every use of t lies in the rest of this block, where self.a is not stored again
+                if loads(rest, t) + 1 != loads([fn], t):
+                    ok = False
+                for st in rest:
+                    for x in ast.walk(st):
+                        if isinstance(x, ast.Attribute) and isinstance(x.ctx, (ast.Store, ast.Del)) and U(x) == attr_txt:
+                            ok = False
+                        if isinstance(x, (ast.FunctionDef, ast.Lambda)):
+                            pass
+                if not ok:
+                    continue
+                new_def = ast.copy_location(ast.Assign(targets=[_copy.deepcopy(sj.targets[0])], value=block[i].value), block[i])
+
+                class R(ast.NodeTransformer):
+                    def visit_Name(self, n):
+                        if n.id == t and isinstance(n.ctx, ast.Load):
+                            a = _copy.deepcopy(sj.targets[0])
+                            a.ctx = ast.Load()
+                            return ast.copy_location(a, n)
+                        return n
+                block = block[:i] + [new_def] + [R().visit(st) for st in between] + [R().visit(st) for st in block[j + 1:]]
+                cnt[t] = 0
+                changed = True
+                break
+        for st in block:
+            if isinstance(st, (ast.FunctionDef, ast.ClassDef)):
+                continue
+            for fld in ("body", "orelse", "finalbody"):
+                v = getattr(st, fld, None)
+                if isinstance(v, list) and v and isinstance(v[0], ast.stmt):
+                    setattr(st, fld, do_block(v))
+            if isinstance(st, ast.Try):
+                for h in st.handlers:
+                    h.body = do_block(h.body)
+        return block
+    fn.body = do_block(fn.body)
+
+
+def _inline_named_conditions(fn: ast.FunctionDef):
+    """`flag = <comparison>; ... if flag:`  ->  `if <comparison>:` for a local bound once to a call-free boolean expression
+    whose operands are not rebound anywhere in the function: a named condition is analysed as the condition itself."""
+    import copy as _copy
+    cnt = _binding_counts(fn)
+    params = {a.arg for a in fn.args.posonlyargs + fn.args.args + fn.args.kwonlyargs}
+    stored_attrs = {ast.unparse(x) for x in ast.walk(fn) if isinstance(x, ast.Attribute) and isinstance(x.ctx, (ast.Store, ast.Del))}
+    table: Dict[str, ast.AST] = {}
+    for st in ast.walk(fn):
+        if not (isinstance(st, ast.Assign) and len(st.targets) == 1 and isinstance(st.targets[0], ast.Name)):
+            continue
+        name, v = st.targets[0].id, st.value
+        if cnt.get(name, 0) != 1 or name in params:
+            continue
+        if not isinstance(v, (ast.Compare, ast.BoolOp)) and not (isinstance(v, ast.UnaryOp) and isinstance(v.op, ast.Not)):
+            continue
+        ok = True
+        for x in ast.walk(v):
+            if isinstance(x, (ast.Call, ast.Await, ast.NamedExpr, ast.Lambda, ast.Subscript, ast.IfExp)):
+                ok = False
+            elif isinstance(x, ast.Name) and not (cnt.get(x.id, 0) == 0 or (x.id in params and cnt.get(x.id, 0) == 0)):
+                ok = False
+            elif isinstance(x, ast.Attribute) and ast.unparse(x) in stored_attrs:
+                ok = False
+        if ok:
+            table[name] = v
+    if not table:
+        return
+
+    class R(ast.NodeTransformer):
+        def __init__(self):
+            self.in_test = 0
+
+        def visit_Name(self, n):
+            if self.in_test and isinstance(n.ctx, ast.Load) and n.id in table:
+                return ast.copy_location(_copy.deepcopy(table[n.id]), n)
+            return n
+
+        def _test(self, t):
+            # only the boolean skeleton of a test: the flag itself, under not / and / or
+            if isinstance(t, ast.Name):
+                self.in_test += 1
+                t = self.visit(t)
+                self.in_test -= 1
+                return t
+            if isinstance(t, ast.UnaryOp) and isinstance(t.op, ast.Not):
+                t.operand = self._test(t.operand)
+                return t
+            if isinstance(t, ast.BoolOp):
+                t.values = [self._test(v) for v in t.values]
+                return t
+            return self.visit(t)
+
+        def visit_If(self, n):
+            n.test = self._test(n.test)
+            n.body = [self.visit(b) for b in n.body]
+            n.orelse = [self.visit(b) for b in n.orelse]
+            return n
+
+        def visit_While(self, n):
+            return self.visit_If(n)
+
+        def visit_IfExp(self, n):
+            n.test = self._test(n.test)
+            n.body = self.visit(n.body)
+            n.orelse = self.visit(n.orelse)
+            return n
+
+        def visit_Assert(self, n):
+            n.test = self._test(n.test)
+            return n
+
+        def visit_Assign(self, n):
+            # a flag defined from another flag
+            if len(n.targets) == 1 and isinstance(n.targets[0], ast.Name) and n.targets[0].id in table:
+                return n
+            self.generic_visit(n)
+            return n
+    fn.body = [R().visit(b) for b in fn.body]
+
+
+def _coalesce_copies(fn: ast.FunctionDef):
+    """`b = ...` (possibly in several branches) followed by the single use `a = b`, where that copy is the only binding of
+    a: the value is computed directly into a (b renamed to a, copy dropped)."""
+    for _ in range(20):
+        cnt = _binding_counts(fn)
+        params = {a.arg for a in fn.args.posonlyargs + fn.args.args + fn.args.kwonlyargs}
+        loads: Dict[str, int] = {}
+        for x in ast.walk(fn):
+            if isinstance(x, ast.Name) and isinstance(x.ctx, ast.Load):
+                loads[x.id] = loads.get(x.id, 0) + 1
+        nested = {x.id for d in ast.walk(fn) if isinstance(d, (ast.FunctionDef, ast.Lambda)) and d is not fn
+                  for x in ast.walk(d) if isinstance(x, ast.Name)}
+        hit = None
+        for blk_owner in ast.walk(fn):
+            for fld in ("body", "orelse", "finalbody"):
+                blk = getattr(blk_owner, fld, None)
+                if not (isinstance(blk, list) and blk and isinstance(blk[0], ast.stmt)):
+                    continue
+                for st in blk:
+                    if isinstance(st, ast.Assign) and len(st.targets) == 1 and isinstance(st.targets[0], ast.Name) and \
+                            isinstance(st.value, ast.Name):
+                        a, b = st.targets[0].id, st.value.id
+                        if a != b and cnt.get(a, 0) == 1 and a not in params and b not in params and loads.get(b, 0) == 1 \
+                                and cnt.get(b, 0) >= 1 and a not in nested and b not in nested:
+                            # b must only be bound by plain assignments (not loop targets etc.)
+                            plain = sum(1 for x in ast.walk(fn) if isinstance(x, ast.Assign) and len(x.targets) == 1
+                                        and isinstance(x.targets[0], ast.Name) and x.targets[0].id == b)
+                            if plain == cnt.get(b, 0):
+                                hit = (blk, st, a, b)
+                                break
+                if hit:
+                    break
+            if hit:
+                break
+        if not hit:
+            return
+        blk, st, a, b = hit
+        blk.remove(st)
+        if not blk:
+            blk.append(ast.copy_location(ast.Pass(), st))
+        for x in ast.walk(fn):
+            if isinstance(x, ast.Name) and x.id == b:
+                x.id = a
+
+
+class _LowerIfExp(ast.NodeTransformer):
+    """`x = a if c else b` -> `if c: x = a / else: x = b` (also for return and augmented assignment): the branch decision
+    becomes visible to the flow-based rules in one form only."""
+
+    def _lower(self, stmts):
+        import copy as _copy
+        out = []
+        for st in stmts:
+            v = getattr(st, "value", None)
+            if isinstance(st, (ast.Assign, ast.AugAssign, ast.Return)) and isinstance(v, ast.IfExp) and \
+                    not (isinstance(st, ast.Assign) and any(not isinstance(t, (ast.Name, ast.Attribute)) for t in st.targets)):
+                a, b = _copy.copy(st), _copy.copy(st)
+                a.value, b.value = v.body, v.orelse
+                new = ast.copy_location(ast.If(test=v.test, body=self._lower([a]), orelse=self._lower([b])), st)
+                out.append(new)
+            else:
+                out.append(st)
+        return out
+
+    def generic_visit(self, node):
+        super().generic_visit(node)
+        for fld in ("body", "orelse", "finalbody"):
+            v = getattr(node, fld, None)
+            if isinstance(v, list) and v and isinstance(v[0], ast.stmt):
+                setattr(node, fld, self._lower(v))
+        return node
+
+
+_SHARED = (ast.expr_context, ast.operator, ast.unaryop, ast.cmpop, ast.boolop)
+
+
+def _set_parents(tree: ast.AST):
+    """parent links for every node - except the context / operator tokens, which the parser shares between all trees
+    (a link on a shared token would tie every later copy of a Name to a whole unrelated module)"""
+    for n in ast.walk(tree):
+        for ch in ast.iter_child_nodes(n):
+            if not isinstance(ch, _SHARED):
+                ch._parent = n  # type: ignore[attr-defined]
+
+
 def _normalise_tree(tree: ast.Module, inline: bool = True):
     if inline and not os.environ.get("PMLINT_NO_INLINE"):
         from .inline import inline_helpers
         inline_helpers(tree)
         _Desugar().visit(tree)
+        for n in ast.walk(tree):
+            if isinstance(n, ast.FunctionDef):
+                _inline_named_conditions(n)
+        if not os.environ.get("PMLINT_NO_LOWER"):
+            _LowerIfExp().visit(tree)
+        for n in ast.walk(tree):
+            if isinstance(n, ast.FunctionDef):
+                _coalesce_copies(n)
+        for n in ast.walk(tree):
+            if isinstance(n, ast.FunctionDef):
+                _forward_attr_stores(n)
         ast.fix_missing_locations(tree)
     roots = set()
     for st in tree.body:
@@ -346,9 +633,7 @@ class Model:
                 from . import spans as _spans
                 _spans.record(rel, name[len(self.package) + 1:] if name.startswith(self.package + ".") else name, tree)
                 _normalise_tree(tree)
-                for n in ast.walk(tree):
-                    for ch in ast.iter_child_nodes(n):
-                        ch._parent = n  # type: ignore[attr-defined]
+                _set_parents(tree)
                 self.modules[name] = ModuleInfo(name, path, rel, tree, src, is_pkg)
         if not self.modules:
             raise AnalysisError("no modules parsed")
@@ -360,9 +645,7 @@ class Model:
             except SyntaxError as e:
                 raise AnalysisError(f"cannot parse overlay {rel}: {e}")
             _normalise_tree(tree, inline=False)
-            for n in ast.walk(tree):
-                for ch in ast.iter_child_nodes(n):
-                    ch._parent = n  # type: ignore[attr-defined]
+            _set_parents(tree)
             self.modules[name] = ModuleInfo(name, os.path.join(self.root, rel), rel, tree, src, False)
         for m in self.modules.values():
             self._index_module(m)
